@@ -16,10 +16,13 @@ var (
 func MakeFilename(dir, extension string) string {
 	t := time.Now().Truncate(time.Millisecond)
 	mtx.Lock()
-	if lastTime != t {
+	if t.After(lastTime) {
 		lastTime = t
 		lastID = 0
 	} else {
+		// a caller that read the clock earlier than the previous one must not restart the counter:
+		// the next caller of the later millisecond would be handed a name that is already in use
+		t = lastTime
 		lastID++
 	}
 	curID := lastID
